@@ -129,7 +129,7 @@ def gen_dispatch(g: Gen):
         return None
 
     for label, t in REPR_TEMPLATES:
-        rep = f"{label}:{t!r}"[:60]
+        rep = f"{label}:{ast.dump(t) if isinstance(t, ast.AST) and not isinstance(t, _W) else ('Wildcard' if isinstance(t, _W) else repr(t))}"[:60]
         if label == "value":
             continue
         br = first_branch(object(), t)
